@@ -46,9 +46,17 @@ type attWorld struct {
 	issuer *type3.RateLimitedIssuer // for full issuance steps
 }
 
-func (w *attWorld) secret(c string) []byte     { return p384Scalar(w.seed, "att-client-"+c) }
-func (w *attWorld) indexKey(o string) []byte   { return p384Scalar(w.seed, "att-ik-"+attIndexKeyOf[o]) }
-func (w *attWorld) anon(a string) []byte       { return hashBytes(w.seed, "att-anon-"+a, 32) }
+func (w *attWorld) secret(c string) []byte   { return p384Scalar(w.seed, "att-client-"+c) }
+func (w *attWorld) indexKey(o string) []byte { return p384Scalar(w.seed, "att-ik-"+attIndexKeyOf[o]) }
+func (w *attWorld) anon(a string) []byte {
+	switch a {
+	case "a0": // the zero-length anonymous origin ID: a value like any other
+		return []byte{}
+	case "a5": // one byte
+		return []byte{0}
+	}
+	return hashBytes(w.seed, "att-anon-"+a, 32)
+}
 func (w *attWorld) originName(o string) string { return o + ".example" }
 
 func newAttWorld(seed int64, full bool) *attWorld {
@@ -130,6 +138,17 @@ func buildVerify(w *attWorld, r *rand.Rand, c, q, variant string, bit int) (req 
 			req.Signature = other.Signature
 		case "swap-rs":
 			req.Signature = append(append([]byte{}, req.Signature[48:]...), req.Signature[:48]...)
+		case "extend-namekeyid": // honest signature, extra bytes behind a field
+			req.NameKeyID = append(append([]byte{}, req.NameKeyID...), randBytes(r, 1+bit%40)...)
+		case "shorten-namekeyid":
+			req.NameKeyID = req.NameKeyID[:31-bit%3]
+		case "extend-enc":
+			req.EncryptedTokenRequest = append(append([]byte{}, req.EncryptedTokenRequest...), byte(bit))
+		case "shorten-enc":
+			req.EncryptedTokenRequest = req.EncryptedTokenRequest[:len(req.EncryptedTokenRequest)-1-bit%3]
+		case "extend-reqkey":
+			req.RequestKey = append(append([]byte{}, req.RequestKey...), 0)
+			keyOK = false
 		}
 	case "badkey":
 		keyOK = false
@@ -219,7 +238,7 @@ func execAttester(c *ctx, in ev) []ev {
 		clientName[hex.EncodeToString(clientPublic(w.secret(n)))] = n
 	}
 	anonName := map[string]string{}
-	for i := 1; i <= 5; i++ {
+	for i := 0; i <= 5; i++ {
 		n := fmt.Sprintf("a%d", i)
 		anonName[hex.EncodeToString(w.anon(n))] = n
 	}
@@ -253,6 +272,8 @@ func execAttester(c *ctx, in ev) []ev {
 		}
 		return ev{"op": "Snapshot", "snap": snap}
 	}
+	var lastBlind []byte
+	var retained, retainedCopy [][]byte // IDs handed out so far, and what they were when handed out
 	for _, st := range gL(in, "steps") {
 		s := st.(map[string]any)
 		cn := s["c"].(string)
@@ -283,6 +304,9 @@ func execAttester(c *ctx, in ev) []ev {
 		case "F":
 			o, a := s["o"].(string), s["a"].(string)
 			blind := randScalar(r)
+			if lastBlind != nil && r.Intn(4) == 0 {
+				blind = lastBlind // the same request blind again (possibly for another client or origin)
+			}
 			switch r.Intn(12) { // edge encodings of the request blind
 			case 0:
 				blind = bytes.Repeat([]byte{0xff}, 48) // >= N
@@ -310,9 +334,14 @@ func execAttester(c *ctx, in ev) []ev {
 				ib, _ := ecdsa.BlindPublicKeyWithContext(curve, rk, ik, ctxType3("IssuerBlind"))
 				brk = elliptic.MarshalCompressed(curve, ib.X, ib.Y)
 			}
+			lastBlind = blind
 			var idx []byte
 			var err error
 			p := guard(func() { idx, err = att.FinalizeIndex(clientPublic(secret), blind, brk, w.anon(a)) })
+			if err == nil && p == "" {
+				retained = append(retained, idx)
+				retainedCopy = append(retainedCopy, append([]byte{}, idx...))
+			}
 			e := ev{"op": "FinalizeIndex", "c": cn, "o": o, "a": a, "ok": err == nil && p == "", "err": errStr(err), "panic": p,
 				"idx": "", "ref_ok": false, "full": full}
 			e["brk_ref_ok"] = bytes.Equal(brk, refIssuerBlinded(secret, blind, w.indexKey(o)))
@@ -325,6 +354,14 @@ func execAttester(c *ctx, in ev) []ev {
 		}
 		out = append(out, snapshot())
 	}
+	// IDs returned earlier are the caller's: they must still read as they did
+	same := true
+	for i := range retained {
+		if !bytes.Equal(retained[i], retainedCopy[i]) {
+			same = false
+		}
+	}
+	out = append(out, ev{"op": "Retained", "n": len(retained), "unchanged": same})
 	return out
 }
 
@@ -364,7 +401,18 @@ func genAttester(c *ctx, emit func(ev)) {
 				continue
 			}
 			hist(parseBehaviour(l), i%50 == 0, "tlc")
+			// the model is symmetric in Anons: the behaviour with a1 renamed to the zero-length ID is a behaviour too
+			if strings.Contains(l, ":a1") && (c.thorough() || i%3 == 0) {
+				hist(parseBehaviour(strings.ReplaceAll(l, ":a1", ":a0")), false, "tlc")
+			}
 		}
+	}
+	// 1b. bindings to the unusual anonymous origin IDs (zero-length, one zero byte), first and second
+	for _, pair := range [][2]string{{"a0", "a1"}, {"a1", "a0"}, {"a0", "a5"}, {"a5", "a0"}, {"a5", "a1"}} {
+		hist([]any{ev{"k": "V", "c": "c1", "q": "good"},
+			ev{"k": "F", "c": "c1", "o": "o1", "a": pair[0]}, ev{"k": "F", "c": "c1", "o": "o2", "a": pair[1]},
+			ev{"k": "F", "c": "c1", "o": "o1", "a": pair[0]}, ev{"k": "F", "c": "c1", "o": "o1", "a": pair[1]},
+			ev{"k": "F", "c": "c1", "o": "o3", "a": pair[1]}, ev{"k": "F", "c": "c1", "o": "o2", "a": pair[0]}}, true, "random")
 	}
 	// 2. long seeded random histories over the larger world
 	nLong := c.tierInt(40, 400)
@@ -378,7 +426,7 @@ func genAttester(c *ctx, emit func(ev)) {
 				q := []string{"good", "good", "good", "badsig", "badkey", "badcky"}[r.Intn(6)]
 				steps = append(steps, ev{"k": "V", "c": cn, "q": q, "bit": r.Intn(768)})
 			} else {
-				steps = append(steps, ev{"k": "F", "c": cn, "o": fmt.Sprintf("o%d", 1+r.Intn(6)), "a": fmt.Sprintf("a%d", 1+r.Intn(5))})
+				steps = append(steps, ev{"k": "F", "c": cn, "o": fmt.Sprintf("o%d", 1+r.Intn(6)), "a": fmt.Sprintf("a%d", r.Intn(6))})
 			}
 		}
 		hist(steps, i%10 == 0, "random")
@@ -390,7 +438,8 @@ func genAttester(c *ctx, emit func(ev)) {
 	}{
 		{"badsig", "flip-sig", 768}, {"badsig", "flip-reqkey", 392}, {"badsig", "flip-namekeyid", 256}, {"badsig", "flip-enc", 3000},
 		{"badsig", "short-sig", 96}, {"badsig", "long-sig", 2}, {"badsig", "zero-sig", 1}, {"badsig", "otherkey-sig", 2},
-		{"badsig", "othercontents", 2}, {"badsig", "swap-rs", 1},
+		{"badsig", "othercontents", 2}, {"badsig", "swap-rs", 1}, {"badsig", "extend-namekeyid", 6}, {"badsig", "shorten-namekeyid", 3},
+		{"badsig", "extend-enc", 3}, {"badsig", "shorten-enc", 3}, {"badsig", "extend-reqkey", 1},
 		{"badkey", "wrong-blind", 4}, {"badkey", "wrong-client", 4}, {"badkey", "negated-client", 4},
 		{"badcky", "short", 1}, {"badcky", "offcurve", 1}, {"badcky", "empty", 1}, {"badcky", "uncompressed-prefix", 1},
 	}
